@@ -260,6 +260,20 @@ def gen_expiry(seed, big):
             exp = 'A\nC\n' if ready else src
             out.append((dict(cfg(current=cur, offset=o), mode='clean', source=src, ds='<', de='>'),
                         (lambda e, dd, oo: lambda r: None if r.get('ok') and r.get('output') == e else f'expiry decision wrong at now - to = {dd} ms, offset {oo}: ' + json.dumps(r, ensure_ascii=False)[:160])(exp, ms, o)))
+    # dates far from today: the decision is the same comparison (no 64-bit-nanosecond or 32-bit-second window)
+    for to, cur, ready in (('1600-01-01 00:00:00', NOW, True), ('0001-01-01 00:00:00', NOW, True), ('1677-09-21 00:12:43', NOW, True), ('1901-12-13 20:45:51', NOW, True),
+                           ('2299-12-31 23:59:59', '2300-01-01T00:00:00+00:00', True), ('2262-04-11 23:47:17', '2262-04-12T00:00:00+00:00', True), ('2038-01-19 03:14:08', '2038-01-19T03:14:08+00:00', True),
+                           ('2300-01-01 00:00:01', '2300-01-01T00:00:00+00:00', False), ('9999-12-31 23:59:59', NOW, False), ('2038-01-19 03:14:08', '2038-01-19T03:14:07+00:00', False)):
+        src = f"A\n<{TL} to='{to}'>\nB\n</{TL}>\nC\n"
+        exp = 'A\nC\n' if ready else src
+        out.append((dict(cfg(current=cur), mode='clean', source=src, ds='<', de='>'),
+                    (lambda e, t, c: lambda r: None if r.get('ok') and r.get('output') == e else f'expiry decision wrong for a far-away date to={t} now={c}: ' + json.dumps(r, ensure_ascii=False)[:160])(exp, to, cur)))
+    # years outside chrono's range or spelled with a sign are malformed or never reached: not ready, and no panic at any offset
+    for to in ('-262143-01-01 00:00:00', '+262142-12-31 23:59:59', '262142-12-31 23:59:59', '-0001-01-01 00:00:00', '10000-01-01 00:00:00'):
+        for o in ('+09:00', '-01:00', '+14:00', '-12:00'):
+            src = f"A\n<{TL} to='{to}'>\nB\n</{TL}>\nC\n"
+            out.append((dict(cfg(offset=o), mode='clean', source=src, ds='<', de='>'),
+                        (lambda t, oo: lambda r: ('clean panicked on an extreme `to`: ' + str(r.get('panic'))[:120]) if not r.get('ok') else None)(to, o)))
     bad_to = ['2024/01/01 00:00:00', '2020-01-01', '2020-13-01 00:00:00', '2020-01-01 25:00:00', '2020-01-01 00:00:00 +09:00', '', 'yesterday']
     bad_off = ['', '0900', '+09', 'Z', 'JST', '+25:00', '+09:00:00', '+0900 JST', '+09:00Z', '+00:00 UTC', '-0330x', '+09000', '+09:00 ', '+9:00']
     for t in bad_to:
@@ -299,6 +313,9 @@ def gen_marker(seed, big):
         # target names are compared as whole strings: padding counts on either side
         ("name='f1'", ['f1 '], False), ("name='f1'", [' f1'], False), ("name=' f1'", [' f1'], True), ("name='f1 '", ['f1'], False),
         ("name=''", [' '], False), ("name=' '", [' '], True), ("name='f1'", ['f1\n'], False), ("name='f1'", ['\tf1'], False),
+        # a name is one string, not a list
+        ("name='f1,f2'", ['f1'], False), ("name='f1,f2'", ['f1', 'f2'], False), ("name='f1,f2'", ['f1,f2'], True), ("name='a,'", ['', 'b'], False),
+        ("name=','", [''], False), ("name='f1 f2'", ['f1'], False), ("name='f1;f2'", ['f2'], False), ("name='f1|f2'", ['f1'], False),
         # the FIRST attribute called `name` decides
         ("name name='f1'", ['f1'], False), ("name=f2 name='f1'", ['f1'], False), ("name='zz' name='f1'", ['f1'], False), ("name='f1' name='zz'", ['f1'], True),
         ("name=''\n  name='f1'", ['f1'], False), ("name\n name=\"f1\"", ['f1', ''], False),
@@ -390,7 +407,7 @@ def gen_blocks(seed, big):
     def line():
         counter[0] += 1
         # now and then a blank-looking character that is NOT white space (U+3000, U+00A0): it must survive like a letter
-        return rnd.choice([f'L{counter[0]} é'] * 5 + [f'L{counter[0]}\u3000é', f'\u00a0L{counter[0]} é', f'L{counter[0]} é\u3000'])
+        return rnd.choice([f'L{counter[0]} é'] * 5 + [f'L{counter[0]}\u3000é', f'\u00a0L{counter[0]} é', f'L{counter[0]} é\u3000', f'L{counter[0]}\x00é', f'\x00L{counter[0]} \x7f'])
     def elem(depth, ind):
         kind = rnd.choice(['tl_past', 'tl_future', 'rm_hit', 'rm_miss', 'skip', 'unreg'])
         unwrap = rnd.random() < 0.35
@@ -508,7 +525,7 @@ def gen_inline(seed, big):
     input minus the removable extents of the ready (default strategy) elements"""
     rnd = random.Random(seed + 5)
     out = []
-    words = ['abc', 'x = 1;', 'これは期間限定', 'é', '😀 ok', '}', 'if (a) {', '', 'a\u3000b', '\u00a0;']
+    words = ['abc', 'x = 1;', 'これは期間限定', 'é', '😀 ok', '}', 'if (a) {', '', 'a\u3000b', '\u00a0;', 'a\x00b', '\x00']
     blanks = ['', ' ', '  ', '\t', '\n', '\n  ', ' \n', '\n\n']
     for _ in range(1500 if big else 500):
         ds, de = rnd.choice([('<', '>'), ('<!-- <', '> -->'), ('/* <', '> */')])
@@ -916,7 +933,7 @@ def gen_identity_decisions(seed, big):
     out = []
     for req, orc in gen_marker(seed, big) + gen_expiry(seed, big):
         src = req['source']
-        if orc({'ok': True, 'output': src}) is None:      # the generator's own oracle accepts "unchanged": nothing is ready
+        if orc({'ok': True, 'output': src}) is None and orc({'ok': True, 'output': 'A\nC\n'}) is not None:      # the generator's own oracle demands "unchanged": nothing is ready
             out.append((req, (lambda s_: lambda r: None if r.get('ok') and r.get('output') == s_ else 'nothing is ready, yet the output differs from the input: ' + json.dumps(r, ensure_ascii=False)[:200])(src)))
     return out
 
@@ -936,6 +953,7 @@ def gen_opaque_decisions(seed, big):
             (TL, f"c=\"to='{FUTURE}'\" to='{PAST}'", True), (TL, f"c='to=\"{PAST}\"' to='{FUTURE}'", False),
             (RM, "c=\"name='f1'\" name='zz'", False), (RM, "c=\"name='zz'\" name='f1'", True),
             (TL, f"to='{PAST}' c='a\n * b unwrap-block\n * skip'", True), (RM, f"name='f1' c='{ds.strip() or ds}'", True),
+            (TL, f"to='{PAST}'\nc='{ds.strip() or ds}'", True), (RM, f"name='f1'\n  c=\"{ds.strip() or ds} x\"", True), (RM, f"c='see\n{ds.strip() or ds} old'\n name='f1'", True),
             (TL, f"to='{PAST}' c='= \" ='", True), (RM, "name='f1' c=\"it's = 'skip'\"", True),
         ]
         for tag, attrs, ready in cases:
@@ -1082,6 +1100,59 @@ def gen_large_list(seed, big):
     return [c for c in gen_large_documents(seed, big) if c[0]['mode'] != 'clean']
 
 
+def gen_doubled_delims(seed, big):
+    """C03 (as the crate reads tags): a start delimiter written twice directly in front of a tag belongs to the tag -
+    every leading copy is stripped before the name is read - so the element is a ready element and goes completely"""
+    out = []
+    cases = [(('<', '>'), f"a = b <<{TL} to='{PAST}'>OLD</{TL}> c;\n", 'a = b  c;\n'),
+             (('<!--', '-->'), f"x\n<!--<!-- {TL} to=\"{PAST}\" -->\nOLD\n<!-- /{TL} -->\ny\n", 'x\ny\n'),
+             (('/*', '*/'), f"p /* {RM} name='zz' */ q /* {RM} name='f1' */OLD/*/* /{RM}*/ r /* /{RM} */ s\n", f"p /* {RM} name='zz' */ q  r /* /{RM} */ s\n")]
+    for (ds, de), src, exp in cases:
+        out.append((dict(cfg(), mode='clean', source=src, ds=ds, de=de),
+                    (lambda e: lambda r: None if r.get('ok') and r.get('output') == e else f'a tag behind a doubled start delimiter is still that tag: expected {e!r}, got ' + json.dumps(r, ensure_ascii=False)[:200])(exp)))
+    return out
+
+
+def gen_unwrap_comments(seed, big):
+    """C11/C02 with delimiters that ordinary comments also use (`/* */`, `<!-- -->`): every comment in the body of a ready
+    unwrap-block is a never-closed tag, i.e. plain text; two or more of them nest in the parser and the closing tag has
+    to be handed up through all of them. Exactly the four lines go, the comments stay."""
+    out = []
+    for ds, de, c1, c2, c3 in (('/*', '*/', '/* first step */', '/* second step */', '/* third */'), ('<!--', '-->', '<!-- banner -->', '<!-- caption -->', '<!-- x -->')):
+        for ncomments in (1, 2, 3):
+            body = []
+            for i, c in enumerate((c1, c2, c3)[:ncomments]):
+                body += ['  ' + c, f'  step{i}();']
+            for tag in (f"{TL} to=\"{PAST}\" unwrap-block", f"{RM} name=\"f1\" unwrap-block"):
+                close = tag.split(' ')[0]
+                lines = ['start();', f'{ds} {tag} {de}', 'if (released) {'] + body + ['}', f'{ds} /{close} {de}', 'end();']
+                src = '\n'.join(lines) + '\n'
+                want = ['start();'] + [l.strip(WS) for l in body] + ['end();']
+                def oracle(r, want=want, src=src):
+                    if not r.get('ok'):
+                        return 'clean panicked: ' + str(r.get('panic'))[:160]
+                    got = [l.strip(WS) for l in r['output'].split('\n') if l.strip(WS)]
+                    if got != want:
+                        return f'unwrap-block with ordinary comments in its body: lines {got}, expected {want} (source {src!r})'
+                    return None
+                out.append((dict(cfg(), mode='clean', source=src, ds=ds, de=de), oracle))
+    return out
+
+
+def gen_totality_extreme_dates(seed, big):
+    """C01: no `to` value, however extreme, and no offset makes clean / list / list_all panic"""
+    out = []
+    tos = ['-262143-01-01 00:00:00', '+262142-12-31 23:59:59', '262142-12-31 23:59:59', '-0001-01-01 00:00:00', '0000-01-01 00:00:00', '10000-01-01 00:00:00',
+           '1600-01-01 00:00:00', '2299-12-31 23:59:59', '9999-12-31 23:59:59', '0001-01-01 00:00:00', '2024-02-30 00:00:00', '2024-12-31 23:59:60']
+    for to in tos:
+        for o in ('+09:00', '-01:00', '+14:00', '-12:00', '+00:00'):
+            src = f"A\n<{TL} to='{to}'>\nB\n</{TL}>\nC\n"
+            for mode in ('clean', 'list', 'list_all_json'):
+                out.append((dict(cfg(offset=o), mode=mode, source=src, ds='<', de='>'),
+                            (lambda t, oo, m: lambda r: None if r.get('ok') else f'{m} panicked on to={t!r} offset {oo}: ' + str(r.get('panic'))[:160])(to, o, mode)))
+    return out
+
+
 def gen_blanklines(seed, big):
     """C13: block-style removal with b blank lines before and a after leaves a+b-[a>0 and b>0] blank lines; lines intact"""
     out = []
@@ -1128,14 +1199,14 @@ def gen_lines_intact(seed, big):
     # at top level or inside a pending parent; the lines around the run survive byte for byte
     for n in (2, 3, 4, 5):
         for ind in ('', '  ', '\t', ' \t'):
-            for parent in (False, True):
+            for parent in (None, f"{RM} name='zz'", 'region', f"{TL} to='{PAST}' skip"):
                 for sep in ('', '\n'):
                     blocks = []
                     for i in range(n):
                         tag, close = ((f"{TL} to='{PAST}'", TL) if i % 2 == 0 else (f"{RM} name='f1'", RM))
                         blocks.append(ind + f"<{tag}>\n" + ind + f"gone{i}();\n" + ind + f"</{close}>\n")
-                    head = (f"<{RM} name='zz'>\n" if parent else '') + ind + 'before(); é\n'
-                    tail = ind + 'after_the_blocks();\n' + 'tail();\n' + (f"</{RM}>\n" if parent else '')
+                    head = (f"<{parent}>\n" if parent else '') + ind + 'before(); é\n'
+                    tail = ind + 'after_the_blocks();\n' + 'tail();\n' + (f"</{parent.split(' ')[0]}>\n" if parent else '')
                     src = head + sep.join(blocks) + tail
                     want = [l for l in (head + tail).split('\n') if l.strip(WS)]
                     def oracle(r, want=want, src=src):
@@ -1367,10 +1438,12 @@ def respell(req, k):
     import re as _re
     if _re.search(r'(?<![</])(?:' + _re.escape(TL) + '|' + _re.escape(RM) + ')', src):
         return None
-    new = src.replace('</' + TL, '\x00c' + 'T').replace('</' + RM, '\x00c' + 'R').replace('<' + TL, '\x00o' + 'T').replace('<' + RM, '\x00o' + 'R')
-    new = new.replace('<', '\x00<').replace('>', '\x00>')
-    new = (new.replace('\x00cT', ds + '/' + tl).replace('\x00cR', ds + '/' + rm).replace('\x00oT', ds + tl).replace('\x00oR', ds + rm)
-              .replace('\x00<', ds).replace('\x00>', de))
+    if '\ue000' in src:
+        return None
+    new = src.replace('</' + TL, '\ue000c' + 'T').replace('</' + RM, '\ue000c' + 'R').replace('<' + TL, '\ue000o' + 'T').replace('<' + RM, '\ue000o' + 'R')
+    new = new.replace('<', '\ue000<').replace('>', '\ue000>')
+    new = (new.replace('\ue000cT', ds + '/' + tl).replace('\ue000cR', ds + '/' + rm).replace('\ue000oT', ds + tl).replace('\ue000oR', ds + rm)
+              .replace('\ue000<', ds).replace('\ue000>', de))
     nreq = dict(req, source=new, ds=ds, de=de, tl_tag=tl, rm_tag=rm)
     def back(text):
         t = text.replace(ds + '/' + tl, '</' + TL).replace(ds + '/' + rm, '</' + RM).replace(ds + tl, '<' + TL).replace(ds + rm, '<' + RM)
@@ -1389,11 +1462,11 @@ def _back_same(t, d):
 
 GENERATORS = {
     'C01': [gen_totality], 'C04': [gen_identity, gen_identity_unwrappable, gen_identity_unrecognised, gen_identity_unexpired, gen_identity_decisions, gen_tag_whitespace], 'C07': [gen_partition], 'C08': [gen_recognition, gen_recognition_entry], 'C05': [gen_expiry, gen_env_independent_expiry], 'C06': [gen_marker, gen_tag_whitespace],
-    'C09': [gen_grammar, gen_opaque_decisions], 'C10': [gen_pairing], 'C02': [gen_blocks, gen_inline, gen_nested_text_survives, gen_unwrap_crlf_text, gen_odd_whitespace_lines, gen_tag_whitespace, gen_large_clean], 'C03': [gen_blocks, gen_inline, gen_nested_text_survives, gen_unwrap_crlf_text, gen_closer_attrs, gen_large_clean], 'C11': [gen_blocks, gen_unwrap_wrappers, gen_unwrap_four_lines, gen_identity_unwrappable, gen_unwrap_crlf_text], 'C17': [gen_list_all],
+    'C09': [gen_grammar, gen_opaque_decisions], 'C10': [gen_pairing], 'C02': [gen_blocks, gen_inline, gen_nested_text_survives, gen_unwrap_crlf_text, gen_odd_whitespace_lines, gen_tag_whitespace, gen_large_clean], 'C03': [gen_blocks, gen_inline, gen_nested_text_survives, gen_unwrap_crlf_text, gen_closer_attrs, gen_large_clean, gen_doubled_delims], 'C11': [gen_blocks, gen_unwrap_wrappers, gen_unwrap_four_lines, gen_identity_unwrappable, gen_unwrap_crlf_text, gen_unwrap_comments], 'C17': [gen_list_all],
     'C12': [gen_dedent, gen_dedent_nested, gen_dedent_crlf], 'C13': [gen_blanklines, gen_lines_intact, gen_odd_whitespace_lines], 'C14': [gen_inline, gen_dedent_nested, gen_unwrap_lines_intact, gen_unwrap_lines_intact_crlf], 'C15': [gen_list_regions, gen_env_independent_list, gen_large_list],
 }
 
-GENERATORS['C01'] = GENERATORS['C01'] + [gen_totality_everywhere]
+GENERATORS['C01'] = GENERATORS['C01'] + [gen_totality_everywhere, gen_totality_extreme_dates]
 
 
 def run(prop, drive, seed=0, big=False):
